@@ -56,6 +56,9 @@ func parseRefCC(lines []string) refCC {
 					continue
 				}
 				r.maPresent = true
+				if len(val) >= 2 && val[0] == '"' && val[len(val)-1] == '"' {
+					val = val[1 : len(val)-1] // the quoted-string form of the argument is equivalent (RFC 9111 section 5.2)
+				}
 				if n, err := strconv.ParseInt(val, 10, 64); err == nil && n >= 0 && !r.maOK {
 					r.ma, r.maOK = n, true
 				} else if allDigits(val) && !r.maOK {
@@ -70,11 +73,13 @@ func parseRefCC(lines []string) refCC {
 }
 
 func genClasses(full bool) []ccClass {
-	ma := []string{"", "max-age=5", "max-age=0", "Max-Age=5", "max-age=x", "max-age=-1", "max-age=99999999999999999999", "MAX-AGE=7"}
-	flags := []string{"", "no-store", "no-cache", "private", "public", "No-Store", "PRIVATE", "must-revalidate"}
+	ma := []string{"", "max-age=5", "max-age=0", "Max-Age=5", "max-age=x", "max-age=-1", "max-age=99999999999999999999", "MAX-AGE=7", `max-age="5"`, `max-age="0"`}
+	// the argument forms (no-cache="set-cookie": "may be reused except for that field") mark the response all the
+	// same for a cache that does not implement field-level handling
+	flags := []string{"", "no-store", "no-cache", "private", "public", "No-Store", "PRIVATE", "must-revalidate", `no-cache="set-cookie"`, `private="set-cookie"`, "no-store="}
 	if !full {
-		ma = []string{"", "max-age=5", "max-age=0", "Max-Age=5", "max-age=x"}
-		flags = []string{"", "no-store", "no-cache", "private", "public", "No-Store"}
+		ma = []string{"", "max-age=5", "max-age=0", "Max-Age=5", "max-age=x", `max-age="5"`}
+		flags = []string{"", "no-store", "no-cache", "private", "public", "No-Store", `private="set-cookie"`}
 	}
 	now := vtime.Epoch
 	exps := [][2]string{{"", "absent"}, {httpDate(now.Add(300 * time.Second)), "future"}, {httpDate(now.Add(-300 * time.Second)), "past"}, {"0", "zero"}, {"soon", "garbage"},
